@@ -72,3 +72,30 @@ CASES += [
          edits=[("    return dotted_name_to_cst(value.__qualname__)",
                  "    return dotted_name_to_cst(value.__name__)")]),
 ]
+
+_PV = 'fiddle/_src/codegen/py_val_to_cst_converter.py'
+CASES += [
+    dict(id='c12-benign-slice-shortest-form', prop='C12', file=_PV,
+         expect='silent',
+         edits=[("""  return cst.Call(
+      func=cst.Name('slice'),
+      args=[
+          cst.Arg(conversion_fn(value.start)),
+          cst.Arg(conversion_fn(value.stop)),
+          cst.Arg(conversion_fn(value.step)),
+      ],
+  )""", """  parts = [value.start, value.stop, value.step]
+  if value.step is None:
+    parts.pop()
+    if value.start is None:
+      parts.pop(0)
+  return cst.Call(
+      func=cst.Name('slice'),
+      args=[cst.Arg(conversion_fn(part)) for part in parts],
+  )""")]),
+    dict(id='c12-slice-swapped-arguments', prop='C12', file=_PV,
+         expect='violation', names='LIT.slice-arguments',
+         edits=[("""          cst.Arg(conversion_fn(value.stop)),
+          cst.Arg(conversion_fn(value.step)),""", """          cst.Arg(conversion_fn(value.step)),
+          cst.Arg(conversion_fn(value.stop)),""")]),
+]
